@@ -812,6 +812,7 @@ UNITS = [
     ("scheduling ops", ["SchedOps.lean"], lambda src: __import__("sched2lean").generate(src)),
     ("coroutine state helpers", ["CoroState.lean"], lambda src: __import__("corostate2lean").generate(src)),
     ("context selection", ["CtxResume.lean"], lambda src: __import__("ctxresume2lean").generate(src)),
+    ("CoroStart, _Continuation, coro_eager, cancelling", ["CoroStart.lean"], lambda src: __import__("corostart2lean").generate(src)),
 ]
 
 
